@@ -215,6 +215,7 @@ inline void worker_loop(Shared* sh, int slot, uint64_t ncases, const std::string
         c.violation("harness.nondeterminism", p.done(), de.done());
       }
     }
+    c.notes["max_case_wall_s"] = now_s() - w.started;   // slowest case (including a determinism re-run): margin to --case-timeout
     for (auto& v : c.viol) {
       if (nviol++ < 400000) { if (!vf) vf = fopen(vpath.c_str(), "w"); fprintf(vf, "%s\n", v.c_str()); fflush(vf); }
     }
